@@ -268,8 +268,13 @@ def watch_scenarios(tier: str) -> tuple[list[WatchScenario], list[WatchScenario]
             scripted.append(WatchScenario(user=user, pre=['z'], horizon=40.0))
     # inactivity: no events for longer than the inactivity timeout, then a change
     scripted.append(WatchScenario(user=[(2.0, 'create', 'a'), (30.0, 'modify', 'a'), (31.0, 'delete', 'a')], pre=[], horizon=70.0))
+    # resource versions are opaque: the same scripts with versions that gain a digit in mid-history (99 -> 100, 9 -> 10)
+    for sc in list(scripted):
+        for rv0 in (97, 7):
+            scripted.append(WatchScenario(**dict(sc.params, rv0=rv0)))
     # explorer-placed faults
     searched.append(WatchScenario(user=changes[:4], pre=['z'], horizon=30.0, dev_faults=True, early_user=True, time_dev=True, grid=2.0))
+    searched.append(WatchScenario(user=changes[:4], pre=['z'], horizon=30.0, dev_faults=True, early_user=True, time_dev=True, grid=2.0, rv0=97))
     searched.append(WatchScenario(user=[(2.0, 'create', 'a'), (3.0, 'pause'), (4.0, 'modify', 'a'), (5.0, 'delete', 'a'), (6.0, 'resume'), (8.0, 'create', 'b')],
                                   pre=['z'], horizon=30.0, dev_faults=True, early_user=True))
     return scripted, searched
